@@ -346,11 +346,21 @@ def run(ctx):
                         continue
                     hpr = Prov(hb, adapter_pred=lambda t: (t.get("callee") or {}).get("name") in ("to_string", "as_str", "deref", "unwrap", "deref_mut", "to_owned", "into"))
                     kp = {x[1] for x in hpr.operand(hins[0].args[1]) if x[0] == "arg" and not x[2]}
-                    vp = {x[1] for x in hpr.operand(hins[0].args[2]) if x[0] == "arg" and not x[2]}
+                    vo_ = hpr.operand(hins[0].args[2])
+                    vp = {x[1] for x in vo_ if x[0] == "arg" and not x[2]}
+                    conv_inside = False
+                    if not vp:
+                        # the helper converts the unit itself: value = unit-conversion call over one of its parameters
+                        for x in vo_:
+                            if x[0] == "call" and "unit" in (hb.term(x[1])["callee"].get("name") or ""):
+                                for a_ in hb.term(x[1]).get("args", []):
+                                    vp |= {y[1] for y in hpr.operand(a_) if y[0] == "arg" and not y[2]}
+                                conv_inside = bool(vp)
                     if len(kp) == 1 and len(vp) == 1 and hb.must_pass([hins[0].bb]):
                         ka, va = c.args[next(iter(kp)) - 1], c.args[next(iter(vp)) - 1]
-                        ok = any(x[0] == "arg" and x[1] == 2 for x in pr.operand(ka)) and any(
-                            x[0] == "call" and "unit" in b.term(x[1])["callee"]["name"] for x in pr.operand(va))
+                        ok = any(x[0] == "arg" and x[1] == 2 for x in pr.operand(ka)) and (
+                            any(x[0] == "arg" and x[1] == 3 for x in pr.operand(va)) if conv_inside else
+                            any(x[0] == "call" and "unit" in b.term(x[1])["callee"]["name"] for x in pr.operand(va)))
         ctx.check(ok, "R20.4", fnkey(b) + "#records-unit-under-name", loc(b), "%s does not record the converted unit under the metric's name" % b.name)
     # ------------------------------------------------------------------ R20.5 reporter (call-site facts)
     # a publish step = `destination.append(recorder.readout())`: written in the task itself, or as a closure the task is handed and calls
